@@ -4,7 +4,7 @@ clematis/memory/index.py (owner / recency filters, cosine ranking, tier search) 
 (quality_ops.fuse, quality_mmr.mmr_select / mmr_reorder_full, hybrid.rerank_with_gel): rerankers only permute.
 
 Modelling decisions (see ENGINE_GUIDE.md for the engine features):
- * an episode is a python dict: dict-shaped record `Episode` with the keys the code reads; "k?" = may be absent;
+ * an episode is a python dict: dict-shaped record `C11Episode` with the keys the code reads; "k?" = may be absent;
    `id` always present (type invariant of the memory store: InMemoryIndex.add is only fed episodes with an id);
  * vectors are opaque (`Un[Vec]`), `_cosine` is the uninterpreted real function `cosine(q, v)` (numerics are ND);
  * datetimes are reals (UTC seconds); `_parse_iso` is used under an *assumed* contract: a well-formed ISO string has
@@ -16,9 +16,9 @@ INDEX = "clematis/memory/index.py:"
 R.untype("Vec")
 # episode ids are strings that this code only hashes, compares and passes through str(): opaque ordered key sort
 R.untype("EpId", strlike=True)
-R.dictshape("Episode", {"id": "Un[EpId]", "owner?": "str", "ts?": "str", "vec_full?": "Un[Vec]", "text?": "str"})
-R.objtype("MemIndex", {"_eps": "List[Episode]", "_ver": "int"}, cls=("clematis/memory/index.py", "InMemoryIndex"))
-EPS = "List[Episode]"
+R.keyrec("C11Episode", {"id": "Un[EpId]", "owner?": "str", "ts?": "str", "vec_full?": "Un[Vec]", "text?": "str"})
+R.objtype("C11MemIndex", {"_eps": "List[C11Episode]", "_ver": "int"}, cls=("clematis/memory/index.py", "InMemoryIndex"))
+EPS = "List[C11Episode]"
 
 R.opaque(INDEX + "_cosine", "cosine", ["Un[Vec]", "Un[Vec]"], "float")
 R.uf("iso_ok", ["str"], "bool")
@@ -32,7 +32,7 @@ R.contract(
 # ------------------------------------------------------------------ _filter_owner
 R.contract(
     INDEX + "InMemoryIndex._filter_owner", "C11",
-    types={"self": "MemIndex", "eps": EPS, "owner": "Optional[str]"},
+    types={"self": "C11MemIndex", "eps": EPS, "owner": "Optional[str]"},
     returns=EPS,
     ensures=[
         ("owner-scope", "implies(not is_none(owner), forall(i, 0 <= i < len(result), 'owner' in result[i] and result[i]['owner'] == some(owner)))"),
@@ -55,7 +55,7 @@ _CUT = "(now_utc - 86400 * recent_days)"
 _TS_OK_IN = "(iso_ok(ep_ts(%(e)s)) and iso_value(ep_ts(%(e)s)) >= %(c)s)"
 R.contract(
     INDEX + "InMemoryIndex._filter_recent", "C11",
-    types={"self": "MemIndex", "eps": EPS, "recent_days": "int", "now_utc": "float"},
+    types={"self": "C11MemIndex", "eps": EPS, "recent_days": "int", "now_utc": "float"},
     returns=EPS,
     ensures=[
         ("no-window-identity", "implies(recent_days <= 0, seq_eq(result, eps))"),
@@ -84,10 +84,10 @@ R.contract(
 # ------------------------------------------------------------------ _rank_by_cosine
 _QUAL = "('vec_full' in %(e)s and cosine(q_vec, %(e)s['vec_full']) >= sim_threshold)"
 _KEY = "(0 - %(s)s, %(e)s['id'])"
-SCORED = "List[Tuple[Episode, float]]"
+SCORED = "List[Tuple[C11Episode, float]]"
 R.contract(
     INDEX + "InMemoryIndex._rank_by_cosine", "C11",
-    types={"self": "MemIndex", "eps": EPS, "q_vec": "Un[Vec]", "k": "int", "sim_threshold": "float"},
+    types={"self": "C11MemIndex", "eps": EPS, "q_vec": "Un[Vec]", "k": "int", "sim_threshold": "float"},
     returns=SCORED,
     # t2.k_retrieval is validated >= 1; for k < 0 python's scored[:k] drops the *last* |k| entries instead of
     # returning nothing, so `len(result) <= max(k, 0)` does not hold there (reported as a finding)
@@ -125,7 +125,7 @@ R.opaque(INDEX + "_to_quarter", "quarter_of", ["str"], "str")
 _HASQ = "(not is_none(quarters) and len(some(quarters)) > 0)"
 R.contract(
     INDEX + "InMemoryIndex._filter_quarters", "C11",
-    types={"self": "MemIndex", "eps": EPS, "quarters": "Optional[List[str]]"},
+    types={"self": "C11MemIndex", "eps": EPS, "quarters": "Optional[List[str]]"},
     returns=EPS,
     ensures=[
         ("no-quarters-identity", "implies(not " + _HASQ + ", seq_eq(result, eps))"),
@@ -155,7 +155,7 @@ _OUT_LOOP = {3: {"inv": [
     "forall(j, 0 <= j < _i, out[j].id == _iter[j][0]['id'] and out[j].owner == _iter[j][0].get('owner', '') and "
     "out[j].score == _iter[j][1] and out[j].text == _iter[j][0].get('text', ''))",
 ]}}
-_SEARCH_TYPES = {"self": "MemIndex", "episodes": EPS, "owner": "Optional[str]", "q_vec": "Un[Vec]", "k": "int", "hints": "SearchHints"}
+_SEARCH_TYPES = {"self": "C11MemIndex", "episodes": EPS, "owner": "Optional[str]", "q_vec": "Un[Vec]", "k": "int", "hints": "SearchHints"}
 _SEARCH_LOCALS = {"out": "List[EpisodeRef]", "results": SCORED}
 _COMMON = [
     ("at-most-k", "len(result) <= k"),
@@ -221,12 +221,12 @@ R.contract(
 # the cluster arm in isolation: live-ins are the owner-filtered episodes and the parsed hints; the rule proved is
 # "the ranked pool consists exactly of the episodes of the top-m clusters under (-centroid cosine, cluster id)"
 R.untype("Cid", strlike=True)
-R.opaque(INDEX + "_stable_cluster_id", "cluster_of", ["Episode"], "Un[Cid]")
+R.opaque(INDEX + "_stable_cluster_id", "cluster_of", ["C11Episode"], "Un[Cid]")
 _TOPM = "min(clusters_top_m, len(cluster_scores))"
 R.contract(
     INDEX + "InMemoryIndex._search_with_episodes", "C11", name="InMemoryIndex._search_with_episodes[cluster-tier region]", callee=False,
     region=("by_cluster: Dict[str, List[Dict[str, Any]]] = {}", "results = self._rank_by_cosine(pool"),
-    types={"self": "MemIndex", "episodes": EPS, "owner": "Optional[str]", "q_vec": "Un[Vec]", "k": "int", "tier": "str", "hints": "None",
+    types={"self": "C11MemIndex", "episodes": EPS, "owner": "Optional[str]", "q_vec": "Un[Vec]", "k": "int", "tier": "str", "hints": "None",
            "all_eps": EPS, "sim_threshold": "float", "clusters_top_m": "int"},
     # t2.k_retrieval >= 1 and clusters_top_m >= 1 are validated; a negative top-m would make [:m] drop from the end
     requires=[("validator-range", "k >= 0 and clusters_top_m >= 0")],
@@ -269,7 +269,7 @@ R.contract(
             "exists(m, 0 <= m < len(pool), pool[m] == all_eps[j])))",
         ]},
     },
-    locals={"by_cluster": "Dict[Un[Cid], List[Episode]]", "cluster_scores": "List[Tuple[Un[Cid], float]]", "pool": EPS,
+    locals={"by_cluster": "Dict[Un[Cid], List[C11Episode]]", "cluster_scores": "List[Tuple[Un[Cid], float]]", "pool": EPS,
             "results": SCORED, "vecs": "List[Un[Vec]]"},
     feas_timeout_ms=60, named_seqs=True,
 )
@@ -394,8 +394,8 @@ R.contract(
 # ------------------------------------------------------------------ lexical fusion (quality_ops.fuse): only permutes
 QOPS = "clematis/engine/stages/t2/quality_ops.py:"
 R.untype("FId", strlike=True)
-R.dictshape("FuseItem", {"id": "Un[FId]", "score?": "float", "text?": "str"})
-R.dictshape("FusedItem", {"id": "Un[FId]", "score?": "float", "text?": "str", "score_fused": "float"})
+R.keyrec("FuseItem", {"id": "Un[FId]", "score?": "float", "text?": "str"})
+R.keyrec("FusedItem", {"id": "Un[FId]", "score?": "float", "text?": "str", "score_fused": "float"})
 _FSCORE = "(alpha * sem_rr.get(items[%(j)s]['id'], 0.0) + (1.0 - alpha) * lex_rr.get(items[%(j)s]['id'], 0.0))"
 R.contract(
     QOPS + "fuse", "C11", name="fuse[interpolate-and-sort region]", callee=False,
@@ -424,25 +424,25 @@ R.contract(
 
 # ------------------------------------------------------------------ hybrid graph rerank (hybrid.rerank_with_gel): only permutes
 HY = "clematis/engine/stages/hybrid.py:"
-for _n in ("GItem", "EdgeRec", "GelCtx", "GelState"):
+for _n in ("C11GItem", "C11EdgeRec", "C11GelCtx", "C11GelState"):
     R.untype(_n)
-R.untype("GId", strlike=True)
-EDGES = "Dict[str, Un[EdgeRec]]"
-R.dictrec("HybridCfg", {"enabled": "bool", "use_graph": "bool", "anchor_top_m": "int", "walk_hops": "int", "edge_threshold": "float",
+R.untype("C11GId", strlike=True)
+EDGES = "Dict[str, Un[C11EdgeRec]]"
+R.dictrec("C11HybridCfg", {"enabled": "bool", "use_graph": "bool", "anchor_top_m": "int", "walk_hops": "int", "edge_threshold": "float",
                         "lambda_graph": "float", "damping": "float", "degree_norm": "str", "max_bonus": "float", "k_max": "int"})
-R.dictrec("GelGraph", {"edges": EDGES})
+R.dictrec("C11GelGraph", {"edges": EDGES})
 # assumed: _hybrid_cfg returns a dict with all ten keys (it setdefault()s each of them); _graph_store returns the edge table
-R.contract(HY + "_hybrid_cfg", "C11", verify=False, types={"ctx": "Un[GelCtx]"}, returns="HybridCfg")
-R.contract(HY + "_graph_store", "C11", verify=False, types={"state": "Un[GelState]"}, returns="GelGraph")
+R.contract(HY + "_hybrid_cfg", "C11", verify=False, types={"ctx": "Un[C11GelCtx]"}, returns="C11HybridCfg")
+R.contract(HY + "_graph_store", "C11", verify=False, types={"state": "Un[C11GelState]"}, returns="C11GelGraph")
 # item adapters and graph readers are seen as functions of their arguments (scores never matter for "only permutes")
-R.opaque(HY + "_get_id", "gel_id", ["Un[GItem]"], "Un[GId]")
-R.opaque(HY + "_get_sim", "gel_sim", ["Un[GItem]"], "float")
-R.opaque(HY + "_edge_weight", "gel_edge_w", [EDGES, "Un[GId]", "Un[GId]"], "float")
-R.opaque(HY + "_degree", "gel_degree", [EDGES, "Un[GId]", "float", "Set[Un[GId]]"], "int")
+R.opaque(HY + "_get_id", "gel_id", ["Un[C11GItem]"], "Un[C11GId]")
+R.opaque(HY + "_get_sim", "gel_sim", ["Un[C11GItem]"], "float")
+R.opaque(HY + "_edge_weight", "gel_edge_w", [EDGES, "Un[C11GId]", "Un[C11GId]"], "float")
+R.opaque(HY + "_degree", "gel_degree", [EDGES, "Un[C11GId]", "float", "Set[Un[C11GId]]"], "int")
 _K = "min(len(items), cfg['k_max'])"
 R.contract(
     HY + "rerank_with_gel", "C11",
-    types={"ctx": "Un[GelCtx]", "state": "Un[GelState]", "items": "List[Un[GItem]]"},
+    types={"ctx": "Un[C11GelCtx]", "state": "Un[C11GelState]", "items": "List[Un[C11GItem]]"},
     ensures=[
         ("same-length", "len(result[0]) == len(items)"),
         ("every-output-is-an-input", "forall(i, 0 <= i < len(result[0]), exists(j, 0 <= j < len(items), result[0][i] == items[j]))"),
@@ -457,8 +457,8 @@ R.contract(
     raises="none",
     loops={0: {"inv": []}, 1: {"inv": []}, 2: {"inv": []}, 3: {"inv": []}, 4: {"inv": []}, 5: {"inv": []}, 6: {"inv": []},
            7: {"inv": ["len(hybrid_scores) == _i"]}},
-    locals={"edges": EDGES, "best_aw": "Dict[Un[GId], float]", "deg_cache": "Dict[Un[GId], int]",
-            "hybrid_scores": "List[Tuple[float, Un[GId], int]]", "acc": "float", "best": "float", "best_path": "float", "bonus": "float"},
+    locals={"edges": EDGES, "best_aw": "Dict[Un[C11GId], float]", "deg_cache": "Dict[Un[C11GId], int]",
+            "hybrid_scores": "List[Tuple[float, Un[C11GId], int]]", "acc": "float", "best": "float", "best_path": "float", "bonus": "float"},
     asserts={
         "order": [
             "len(order) == k_considered and order[0] == 0",
